@@ -177,7 +177,9 @@ class SqlFluffColumn(Column):
             col_list = []
             for sub_segment in sub_segments:
                 if sub_segment.type == "bracketed":
-                    if is_subquery(sub_segment):
+                    if is_subquery(sub_segment) and SqlFluffColumn._only_wraps_query(
+                        sub_segment
+                    ):
                         col_list += SqlFluffColumn._get_column_from_subquery(
                             sub_segment
                         )
@@ -191,6 +193,23 @@ class SqlFluffColumn(Column):
                     res = SqlFluffColumn._extract_source_columns(sub_segment)
                     col_list.extend(res)
         return col_list
+
+    @staticmethod
+    def _only_wraps_query(bracketed: BaseSegment) -> bool:
+        """
+        (SELECT ...) and ((SELECT ...)) are sub-queries; (col1 - (SELECT ...)) is an expression that contains one
+        """
+        segment = bracketed
+        while segment.type in ("bracketed", "expression"):
+            children = [
+                seg
+                for seg in list_child_segments(segment, False)
+                if seg.type not in ("symbol", "start_bracket", "end_bracket")
+            ]
+            if len(children) != 1:
+                return False
+            segment = children[0]
+        return True
 
     @staticmethod
     def _get_column_from_subquery(
